@@ -1129,6 +1129,24 @@ func rule168(r *core.Run) {
 				case *ssa.ChangeType:
 					flat(x.X, d+1)
 					return
+				case *ssa.Call:
+					// a conversion helper that hands back its receiver / argument unchanged
+					if callee := core.StaticCallee(x); callee != nil && r.P.IsRepo(callee) && len(callee.Blocks) == 1 {
+						if ret, isRet := callee.Blocks[0].Instrs[len(callee.Blocks[0].Instrs)-1].(*ssa.Return); isRet && len(ret.Results) == 1 {
+							rv := ret.Results[0]
+							for k := 0; k < 3; k++ {
+								if ct, isCT := rv.(*ssa.ChangeType); isCT {
+									rv = ct.X
+								}
+							}
+							for k, p := range callee.Params {
+								if rv == ssa.Value(p) && k < len(x.Call.Args) {
+									flat(x.Call.Args[k], d+1)
+									return
+								}
+							}
+						}
+					}
 				}
 				leaves = append(leaves, v)
 			}
